@@ -8,10 +8,13 @@ namespace PsaDhcp.Code
 open PsaDhcp PsaDhcp.Go
 
 /-- The interface configuration is one the client builds: addresses nil or IPv4, a 4-byte (or absent) netmask,
-non-negative MTU and lease. -/
+non-negative MTU and lease, the lease a whole number of seconds (`dhcpmsg.toDuration` yields `seconds * time.Second`).
+The last conjunct is not used by the Lean proof; it is the domain on which `Go.durSecondsInt` (integer division) IS
+Go's `int(d.Seconds())` (a float64 computation, which rounds e.g. 16777216.999999999 s up to 16777217). -/
 def IfcWf (c : Gen.libif.Ifconfig) : Prop :=
   (c.Router = [] ∨ ∃ i, ipOf c.Router = some i) ∧ (c.IP = [] ∨ ∃ i, ipOf c.IP = some i) ∧
-  (∀ d ∈ c.DNS, ∃ i, ipOf d = some i) ∧ (c.Netmask = [] ∨ c.Netmask.length = 4) ∧ 0 ≤ c.MTU ∧ 0 ≤ c.LeaseDuration
+  (∀ d ∈ c.DNS, ∃ i, ipOf d = some i) ∧ (c.Netmask = [] ∨ c.Netmask.length = 4) ∧ 0 ≤ c.MTU ∧ 0 ≤ c.LeaseDuration ∧
+  c.LeaseDuration % 1000000000 = 0
 
 /-- The world of `resolvconf.Run`: the process environment `env`, and the file updates requested so far (the state);
 `updErr` is what the atomic update returns (C20's subject). -/
